@@ -121,7 +121,7 @@ func (p *Peer) Run() {
 		}
 		p.Started = append(p.Started, "v1")
 		p.Answered["v1"]++
-		_ = p.send("done", "v1", atp.WorkDoneMessage{StepID: ws.StepID, OutputID: "out-v1", OutputData: OutputFor("v1"), DebugLogs: p.debugLogs("v1")})
+		_ = p.send("done", "v1", atp.WorkDoneMessage{StepID: ws.StepID, OutputID: "out-v1", OutputData: p.outputFor("v1"), DebugLogs: p.debugLogs("v1")})
 		return
 	}
 	for {
@@ -171,7 +171,7 @@ func (p *Peer) Run() {
 					return
 				}
 				_ = p.send("done", runID, atp.RuntimeMessage{MessageID: atp.MessageTypeWorkDone, RunID: runID,
-					MessageData: atp.WorkDoneMessage{StepID: ws.StepID, OutputID: "out-" + runID, OutputData: OutputFor(runID), DebugLogs: p.debugLogs(runID)}})
+					MessageData: atp.WorkDoneMessage{StepID: ws.StepID, OutputID: "out-" + runID, OutputData: p.outputFor(runID), DebugLogs: p.debugLogs(runID)}})
 			})
 		case atp.MessageTypeSignal:
 			p.SignalsSeen[m.RunID]++
@@ -181,6 +181,20 @@ func (p *Peer) Run() {
 			return
 		}
 	}
+}
+
+// outputFor: with WithDebugLogs (the "a plugin written by somebody else" mode) the output also carries numbers at the
+// edges of what CBOR can say - an unsigned integer above the int64 range, the smallest int64, a half-precision float -
+// next to the message every run is recognised by.
+func (p *Peer) outputFor(runID string) map[string]any {
+	out := OutputFor(runID)
+	if p.WithDebugLogs {
+		out["total"] = uint64(1<<63) + 5
+		out["lowest"] = int64(-1 << 63)
+		out["ratio"] = float32(0.5)
+		out["by_id"] = map[any]any{uint64(1 << 63): "big key", int64(-1): "negative key"}
+	}
+	return out
 }
 
 func (p *Peer) debugLogs(runID string) string {
